@@ -68,7 +68,7 @@ Proof. intros Hk Hp. cbn [step]. rewrite Hk, Hp, N.eqb_refl. eauto. Qed.
 (* ------------------------------------------------------------------ the deadlock (unrepaired code) *)
 
 Definition f8_params : params :=
-  mkParams [mkSpec 0 UntilRunDone OnSignal RWC; mkSpec 1 UntilRunDone OnSignal RWC] false false false false.
+  mkParams [mkSpec 0 UntilRunDone OnSignal RWC; mkSpec 1 UntilRunDone OnSignal RWC] false false false false false.
 
 (* Run boots [c0]; Reload(new = [c0;c1]) stops c0, stores the new configuration (setConfig) and is
    about to boot; Stop() arrives; Run leaves its select and starts stopAllRunnables on the NEW
